@@ -382,6 +382,11 @@ var c17Carriers = []func(e gen.Expr) gen.Node{
 	func(e gen.Expr) gen.Node { return pr(&gen.EUn{Op: "not", X: e}) },
 	func(e gen.Expr) gen.Node { return pr(&gen.EAttr{X: nm("arr"), Key: e}) },
 	func(e gen.Expr) gen.Node { return pr(&gen.EAttr{X: e, Key: num(0)}) },
+	// whatever is asked of null: the question is evaluated first
+	func(e gen.Expr) gen.Node { return pr(&gen.EMethod{X: nm("nul"), Name: "anything", Args: []gen.Expr{e, num(2)}}) },
+	func(e gen.Expr) gen.Node { return pr(&gen.EMethod{X: &gen.EGroup{X: &gen.ENull{}}, Name: "m", Args: []gen.Expr{num(1), e}}) },
+	func(e gen.Expr) gen.Node { return pr(&gen.EAttr{X: nm("nul"), Key: e}) },
+	func(e gen.Expr) gen.Node { return pr(&gen.EMethod{X: nm("undefined_thing"), Name: "m", Args: []gen.Expr{e}}) },
 	func(e gen.Expr) gen.Node {
 		return pr(&gen.EMethod{X: nm("obj"), Name: "Add", Args: []gen.Expr{e, num(2)}})
 	},
